@@ -83,16 +83,23 @@ Section Exec.
   Variable sem : opsem.
   Variable f : func.
 
-  (* the block's exit instruction is the last instruction of the program: not jumping ends the program *)
-  Definition exit_is_last (blk : block) : bool := Nat.leb (length (fn_prog f)) (S (last (b_ins blk) 0)).
+  (* the block's exit instruction is a conditional branch whose target is the very next line: jumping and
+     not jumping lead to the same place (Analysis.branch_to_next looks at the jump target only, not at the
+     length of the program) *)
+  Definition exit_to_next (blk : block) : bool :=
+    match fexit_op f blk with
+    | Some br => branch_to_next (fn_prog f) br (last (b_ins blk) 0)
+    | None => false
+    end.
 
   (* successor taken by a conditional branch.  b_next lists the fall-through block first and the jump
-     target second; when they coincide there is one successor, reached either way -- unless the branch is
-     the last instruction, where only the jump reaches it *)
+     target second; when they coincide (the branch targets the next line) there is one successor, reached
+     either way.  A block with one successor whose branch does not target the next line has no fall-through
+     successor (the branch is the last instruction of the contract): only the jump reaches the successor *)
   Definition jump_ok (blk : block) (jumped : bool) (b' : nat) : Prop :=
     match b_next blk with
     | d :: j :: _ => b' = if jumped then j else d
-    | _ => exit_is_last blk = true -> jumped = true
+    | _ => exit_to_next blk = false -> jumped = true
     end.
   (* bz jumps iff the popped value is zero, bnz iff it is not; other exits: any successor *)
   Definition branch_ok (blk : block) (tr : trace cval) (b' : nat) : Prop :=
